@@ -54,6 +54,10 @@ def build(u):
                     prep=lambda f: u.count('R-shim-call', f.rewrite(r'\bBox::as_ref\b', 'verif_box_as_ref')))
     for g in ['get_section_count', 'get_section', 'lookup_token']:
         emit_method(u, T, r'SourceMapIndex\b', g, 'types::SourceMapIndex::' + g)
+    # constructors / setters / RAM-bundle accessors (the fields an index map hands on)
+    for g in ['new', 'is_for_ram_bundle']:
+        emit_method(u, T, r'SourceMapIndex\b', g, 'types::SourceMapIndex::' + g)
+    emit_method(u, T, r'SourceMapSection\b', 'set_sourcemap', 'types::SourceMapSection::set_sourcemap')
     f = u.get_fn('src/utils.rs', 'greatest_lower_bound')
     f.annotate_closure('res', "res: &'a T", "(o: (usize, &'a T)) ensures o == $BODY", expect=2)
     u.import_fn(f, 'utils::greatest_lower_bound', 'u2_lookup.ctr', 'u2_lookup')
